@@ -58,6 +58,11 @@ func VerifC18_ScanRoot() {
 		root = "/" + rt.StrN("root", 0, n)
 	}
 	noNUL(root)
+	for i := 0; i < len(root); i++ {
+		// (the version pattern is matched against what the walk finds: the
+		// engine's regular-expression interpreter handles ASCII subjects)
+		rt.Assume(root[i] < 0x80)
+	}
 	rt.FsFaults(0)
 	err := reg.ScanStorage(root)
 	_ = err
